@@ -41,14 +41,15 @@ type caseIn struct {
 }
 
 type caseOut struct {
-	findings    []finding
-	counts      map[string]int
-	unspec      []string
-	distinct    map[string][]string
-	fingerprint string
-	nontrivial  bool
-	sample      any
-	fatal       string
+	presenterRejected string // Validate's complaint about the real presenter's output (classified together with the harness-built shapes)
+	findings          []finding
+	counts            map[string]int
+	unspec            []string
+	distinct          map[string][]string
+	fingerprint       string
+	nontrivial        bool
+	sample            any
+	fatal             string
 }
 
 func (o *caseOut) find(key, what string, witness any) {
@@ -438,6 +439,11 @@ func evaluate(r *ev.Run, in *caseIn) (out *caseOut) {
 		}
 	}
 
+	// --- wallet side, the real thing: holder.Wallet.BuildSubmission (presenter.go) with a signed JWT presentation
+	if caseUnspec == "" || found {
+		realPresenter(out, in, walletVCs, found, decidedExists && !exists, selection, byRaw, contradictory)
+	}
+
 	// --- wallet side: Build (optionally with a leading wallet that holds nothing useful)
 	holder := did.MustParseDID(holderDID)
 	other := did.MustParseDID("did:web:other-holder.example")
@@ -488,6 +494,9 @@ func evaluate(r *ev.Run, in *caseIn) (out *caseOut) {
 		return
 	}
 	out.count("submissions_built", 1)
+	if contradictory {
+		return // bounds no number satisfies: what wallet and verifier should make of them is not decided by the property
+	}
 
 	// --- the presentation(s) and envelopes
 	var selCreds []*cred
@@ -568,6 +577,13 @@ func evaluate(r *ev.Run, in *caseIn) (out *caseOut) {
 			walletMap[p[0]] = byKey[p[1]].vc
 		}
 		checkExtraction(out, in, walletMap, selPairs, byKey, "wallet")
+	}
+	if out.presenterRejected != "" {
+		cls := "presenter"
+		if fitsSeveral(rd, selPairs, peSat) {
+			cls = "credential-fits-several-descriptors"
+		}
+		out.find("C12/agreement/validate-rejects-wallet-output/"+cls, "Validate rejects the submission and presentation built by Wallet.BuildSubmission: "+out.presenterRejected, defWitness())
 	}
 	// the wallet's submission must also survive the wire format the token endpoint parses
 	if len(sub.DescriptorMap) > 0 {
